@@ -29,11 +29,34 @@
      C05_faithful_safe     ... and more generally when every initial fluent is written the way the library prints it
                            (repeated names first: (f a a), (g a a b)) and no two different fluents of one function have
                            the same distinct arguments ([safe_repeats], decidable; C05_no_repeats_safe: it covers the
-                           former; C05_safe_repeats_example in Proofs/C05_Main.v) *)
+                           former; C05_safe_repeats_example in Proofs/C05_Main.v)
+   REJECTION WITHOUT THE GRAMMAR (Proofs/C05_Outside.v): for ARBITRARY token trees l1, l2, i1, i2, rest around the
+   offending part - texts the spec's grammar does not cover included - every configuration, domain and numeral reader:
+     C05_rejects_other_domain       a (:domain X) section whose X is not the domain's name is rejected.  The names are
+                                    compared character by character (after the tokenizer's lower-casing): fuel_transport
+                                    is not fuel-transport, dom is not dom- / do-m / domm; a list or nothing for X too
+     C05_rejects_goal_not_and       (:goal g) with g anything but a list that begins with "and": (:goal (p a)), (:goal z)
+     C05_rejects_foreign_goal_item  a goal item whose head is neither a declared predicate nor = <= >= < > :
+                                    (not (p a)), (or ...), (forall ...), undeclared predicates, a list as head
+     C05_rejects_foreign_init_item  an init item whose head is neither "=" nor a declared predicate: (not (p a)),
+                                    (at 5 (p a)), undeclared predicates
+     C05_outside_examples_thm       texts of each class (seven of nine outside the spec's grammar), all rejected
+   THE TREE WITH THE REPAIR PROPOSED FOR D19d (proposed_fixes/D19d.diff, not in /repo yet; model configuration [cfg_gt true],
+   [cfg_gt false] being [cfg_fixed]; Model.Problem.cfg_current says which one the correspondence check runs): an argument of
+   a numeric-goal fluent that IS a declared object / constant must have a conforming type.  Then
+     C05_code_iff_typed      accepted <-> the checks of the repaired code ([wf_code_t true] = wf_code && goal_typed)
+     C05_wf_split_typed      well formed && no repeated argument in a numeric goal
+                               = those checks && the arguments of numeric-goal fluents are DECLARED names
+     C05_accepts_typed, C05_iff_typed_partial, C05_faithful_typed   as above
+     C05_rejects_typed       every ill-formed text whose numeric-goal arguments are all declared names is rejected
+                             (in particular every ill-TYPED numeric-goal argument: the half of D19d the repair closes)
+     C05_iff_typed_refuted   the full iff is still false: an UNDECLARED numeric-goal argument is still accepted
+     C05_d19d_typed_example_thm  (= (f0 o2) 1) with o2 of a foreign type: accepted by cfg_fixed, rejected by cfg_gt true *)
 From Coq Require Import List String Bool PrimFloat.
 From Verif Require Import Base.Result Base.Str Base.Sexp Base.PyDict Model.Domain Model.NumExpr Model.Problem
   Model.ProblemObs Spec.Pddl Spec.Grammar Spec.Problem
-  Proofs.C05_Items Proofs.C05_Parse Proofs.C05_Faithful Proofs.C05_Repeats Proofs.C05_Examples Proofs.C05_Main.
+  Proofs.C05_Items Proofs.C05_Parse Proofs.C05_Faithful Proofs.C05_Repeats Proofs.C05_Examples Proofs.C05_Main
+  Proofs.C05_Outside.
 Import ListNotations.
 Open Scope string_scope.
 
@@ -93,6 +116,78 @@ Theorem C05_pinned_refuted :
                  goal_args_ok ex_dom sp = true /\ parse_problem cfg_pinned ex_num ex_dom d19c_problem = Ok pb).
 Proof. exact C05_pinned_refuted_lemma. Qed.
 
+Theorem C05_rejects_other_domain : forall cfg num dom l1 body l2, names_other_domain dom body = true ->
+  exists k, parse_problem cfg num dom (SList (Atom "define" :: l1 ++ SList (Atom ":domain" :: body) :: l2)) = Err k.
+Proof. exact rejects_other_domain. Qed.
+
+Theorem C05_rejects_goal_not_and : forall cfg num dom l1 g rest l2, is_and_list g = false ->
+  exists k, parse_problem cfg num dom (SList (Atom "define" :: l1 ++ SList (Atom ":goal" :: g :: rest) :: l2)) = Err k.
+Proof. exact rejects_goal_not_and. Qed.
+
+Theorem C05_rejects_foreign_goal_item : forall cfg num dom l1 i1 x i2 rest l2, foreign_goal_item dom x = true ->
+  exists k, parse_problem cfg num dom
+    (SList (Atom "define" :: l1 ++ SList (Atom ":goal" :: SList (Atom "and" :: i1 ++ x :: i2) :: rest) :: l2)) = Err k.
+Proof. exact rejects_foreign_goal_item. Qed.
+
+Theorem C05_rejects_foreign_init_item : forall cfg num dom l1 i1 x i2 l2, foreign_init_item dom x = true ->
+  exists k, parse_problem cfg num dom (SList (Atom "define" :: l1 ++ SList (Atom ":init" :: i1 ++ x :: i2) :: l2)) = Err k.
+Proof. exact rejects_foreign_init_item. Qed.
+
+Theorem C05_outside_examples_thm :
+  names_other_domain ex_dom [Atom "do-m"] = true /\ names_other_domain ex_dom [Atom "dom_"] = true /\
+  names_other_domain ex_dom [SList [Atom "dom"]] = true /\ names_other_domain ex_dom [Atom "dom"] = false /\
+  is_and_list (tok "(p0 o0)") = false /\ is_and_list (tok "z") = false /\ is_and_list (tok "(and (p0 o0))") = true /\
+  foreign_goal_item ex_dom (tok "(not (p0 c0))") = true /\ foreign_goal_item ex_dom (tok "(or (p0 o0) (z))") = true /\
+  foreign_goal_item ex_dom (tok "(p0 zz)") = false /\ foreign_goal_item ex_dom (tok "(>= (h) 1)") = false /\
+  foreign_init_item ex_dom (tok "(not (z))") = true /\ foreign_init_item ex_dom (tok "(at 5 (p0 o0))") = true /\
+  foreign_init_item ex_dom (tok "(= (h) 1)") = false /\
+  forallb (fun e => negb (is_ok (parse_problem cfg_fixed ex_num ex_dom e))) outside_examples = true /\
+  map (fun e => match read_problem ex_num e with Some _ => true | None => false end) outside_examples
+    = [true; true; false; false; false; false; false; false; false].
+Proof. exact C05_outside_examples. Qed.
+
+Theorem C05_code_iff_typed : forall num dom, dom_ok dom -> num_ok num -> forall e sp,
+  read_problem num e = Some sp ->
+  ((exists pb, parse_problem (cfg_gt true) num dom e = Ok pb) <-> wf_code_t true num dom sp = true).
+Proof. exact accepted_iff_code_typed. Qed.
+
+Theorem C05_wf_split_typed : forall num dom, dom_ok dom -> forall sp,
+  wf_sproblem num (vocab_of dom) sp && goal_norepeat sp = wf_code_t true num dom sp && goal_args_declared dom sp.
+Proof. exact wf_split_typed. Qed.
+
+Theorem C05_accepts_typed : forall num dom, dom_ok dom -> num_ok num -> forall e sp,
+  read_problem num e = Some sp -> goal_norepeat sp = true -> wf_sproblem num (vocab_of dom) sp = true ->
+  exists pb, parse_problem (cfg_gt true) num dom e = Ok pb.
+Proof. exact C05_accepts_typed_lemma. Qed.
+
+Theorem C05_iff_typed_partial : forall num dom, dom_ok dom -> num_ok num -> forall e sp,
+  read_problem num e = Some sp -> goal_args_declared dom sp = true -> goal_norepeat sp = true ->
+  ((exists pb, parse_problem (cfg_gt true) num dom e = Ok pb) <-> wf_sproblem num (vocab_of dom) sp = true).
+Proof. exact C05_iff_typed_lemma. Qed.
+
+Theorem C05_rejects_typed : forall num dom, dom_ok dom -> num_ok num -> forall e sp,
+  read_problem num e = Some sp -> goal_args_declared dom sp = true -> wf_sproblem num (vocab_of dom) sp = false ->
+  exists k, parse_problem (cfg_gt true) num dom e = Err k.
+Proof. exact C05_rejects_typed_lemma. Qed.
+
+Theorem C05_faithful_typed : forall num dom, dom_ok dom -> num_ok num -> forall e sp pb,
+  read_problem num e = Some sp -> safe_repeats sp = true ->
+  parse_problem (cfg_gt true) num dom e = Ok pb ->
+  pdump_equiv (dump_problem pb) (spec_dump num sp) = true.
+Proof. exact C05_faithful_typed_lemma. Qed.
+
+Theorem C05_iff_typed_refuted : ~ C05_iff_statement (cfg_gt true).
+Proof. exact C05_iff_typed_refuted_lemma. Qed.
+
+Theorem C05_d19d_typed_example_thm :
+  is_ok (parse_problem cfg_fixed ex_num ex_dom d19d_typed_problem) = true /\
+  is_ok (parse_problem (cfg_gt true) ex_num ex_dom d19d_typed_problem) = false /\
+  is_ok (parse_problem (cfg_gt true) ex_num ex_dom d19d_problem) = true /\
+  is_ok (parse_problem (cfg_gt true) ex_num ex_dom ex_problem) = true /\
+  exists sp, read_problem ex_num d19d_typed_problem = Some sp /\ goal_args_declared ex_dom sp = true /\
+             goal_args_ok ex_dom sp = false /\ wf_sproblem ex_num (vocab_of ex_dom) sp = false.
+Proof. exact C05_d19d_typed_example. Qed.
+
 (* the hypotheses are satisfiable by a non-trivial problem, and its single-point corruptions are ill formed *)
 Theorem C05_nonvacuous_thm :
   dom_ok ex_dom /\ num_ok ex_num /\
@@ -115,3 +210,16 @@ Print Assumptions C05_faithful_refuted.
 Print Assumptions C05_accepts_refuted.
 Print Assumptions C05_pinned_refuted.
 Print Assumptions C05_nonvacuous_thm.
+Print Assumptions C05_rejects_other_domain.
+Print Assumptions C05_rejects_goal_not_and.
+Print Assumptions C05_rejects_foreign_goal_item.
+Print Assumptions C05_rejects_foreign_init_item.
+Print Assumptions C05_outside_examples_thm.
+Print Assumptions C05_code_iff_typed.
+Print Assumptions C05_wf_split_typed.
+Print Assumptions C05_accepts_typed.
+Print Assumptions C05_iff_typed_partial.
+Print Assumptions C05_rejects_typed.
+Print Assumptions C05_faithful_typed.
+Print Assumptions C05_iff_typed_refuted.
+Print Assumptions C05_d19d_typed_example_thm.
